@@ -145,3 +145,6 @@ def run(ctx):
                                      % (fn, T.show(payload, maxdepth=3)))
                         continue
                     _need_sk_valid(ob, known_at(f, conds), key, 'bip85.%s' % fn, fi.where, '')
+    # bulk derivation must not bypass what ckd refuses or computes (hardened refusal, invalid-key refusals)
+    from .C01 import check_bulk
+    check_bulk(ctx, 'C18.BULK(=C01)', kinds=('prv', 'pub'))
